@@ -477,9 +477,10 @@ fn headermap_run(map: &HeaderMap, hist: &[HOp]) -> Option<(String, String)> {
     for k in 0..4u8 {
         map.remove(&view(k).hash());
     }
-    let (m, b) = map.verif_counts();
-    if m != 0 || b != 0 {
-        return Some(("headermap/reset".into(), format!("after removing every key the map still holds {m} in memory and {b} in the backend")));
+    for k in 0..4u8 {
+        if map.contains_key(&view(k).hash()) || map.get(&view(k).hash()).is_some() {
+            return Some(("headermap/removed-key-still-answered".into(), format!("key {k} was removed (at the end of the previous history) and is still contained / returned")));
+        }
     }
     let mut reference: BTreeMap<u8, HeaderIndexView> = BTreeMap::new();
     for (step, op) in hist.iter().enumerate() {
